@@ -43,6 +43,13 @@ let srv_txn k wire now : (n list, string) result =
 let handle = function
   | ["newkey"; a; mn; sg] ->
       with_key a "-" "00" mn sg (fun k -> Printf.sprintf "Ok %d %d" (int_of_n k.k_min) (int_of_n k.k_sign))
+  | ["genkey"; a; mn; sg; sec] ->
+      (* the generator's stream: the octets the implementation returned, then filler the model must not take *)
+      let rnd = bytes_of_hex sec @ List.init 80 (fun _ -> n_of_int 255) in
+      (match c11_key_generate (alg_of a) rnd [] (opt mn) (opt sg) with
+       | Ok (k, bits) -> Printf.sprintf "Ok %d %d %d" (int_of_n k.k_min) (int_of_n k.k_sign) (List.length bits)
+       | Err e -> (match int_of_n e with 1 -> "KeyErr BadMinMacLen" | _ -> "KeyErr BadSigningLen")
+       | _ -> "KeyErr ?")
   | ["time"; s; o; f] -> if c11_eq_fudged (num s) (num o) (num f) then "true" else "false"
   | ["hmac"; a; k; m] -> hex_of_bytes (c11_hmac (alg_of a) (bytes_of_hex k) (bytes_of_hex m))
   | ["creq"; a; s; nm; mn; sg; msg; now; fudge] ->
